@@ -4,7 +4,7 @@ From Coq Require Import ZifyBool ZifyNat ZifyN.
 Local Open Scope N_scope.
 Ltac Zify.zify_post_hook ::= Z.div_mod_to_equations.
 
-(* ---------- witnesses against the current code (variant [defective]) ---------- *)
+(* ---------- geometries used by the historical witnesses (variant [defective] = before the fixes) ---------- *)
 Definition ex_base : N := 1681915904.
 Definition ex_raw : rawcfg :=
   {| r_bs := 16; r_ratio := 0; r_range := Some (1024, 1151); r_max := 2; r_pooling := 1;
@@ -1459,4 +1459,335 @@ Proof.
     + apply (share_address_false r1 r2 (pools_valid_spec rs V i j r1 r2 Lt R1 R2) (b_ip b2) O1 O2).
     + assert (Lt : (j < i)%nat) by lia.
       apply (share_address_false r2 r1 (pools_valid_spec rs V j i r2 r1 Lt R2 R1) (b_ip b2) O2 O1).
+Qed.
+
+(* ====================================================================== reverse exactness for every completion order *)
+(* pool and index agree up to the blocks whose dataplane add is still in flight *)
+Record RSP (p : pool) (ri : rindex) (pend : list (N * N * block)) : Prop := {
+  rp_sound : forall m, In m (r_byip ri) -> In (m_blk m) (blocks_of p (m_sub m));
+  rp_complete : forall k b, In b (blocks_of p k) ->
+     (exists m, In m (r_byip ri) /\ m_sub m = k /\ m_blk m = b) \/ (exists sid, In (sid, k, b) pend) }.
+
+(* f: the subscriber key a session id stands for *)
+Definition PInv (c : cfg) (st : list (N * N * bool * nat)) (f : N -> N) (s : comp) : Prop :=
+  Inv c st (cp_pool s) /\ RI (cp_rev s) /\ RSP (cp_pool s) (cp_rev s) (cp_pend s) /\
+  NoDup (map pend_sid (cp_pend s)) /\ (forall e, In e (cp_pend s) -> snd (fst e) = f (pend_sid e)).
+
+(* a release names the subscriber the session's activation was issued for *)
+Definition keyed (f : N -> N) (o : cop) : bool :=
+  match o with
+  | CActivateLate sid k _ => k =? f sid
+  | CRelease sid k _ => k =? f sid
+  | _ => true
+  end.
+
+Lemma rsp_ext p p' ri pend : (forall k, blocks_of p' k = blocks_of p k) -> RSP p ri pend -> RSP p' ri pend.
+Proof.
+  intros E [S C]. constructor.
+  - intros m Hm. rewrite E. auto.
+  - intros k b Hb. rewrite E in Hb. auto.
+Qed.
+
+(* pending entries may be dropped when their block is gone or indexed *)
+Lemma rsp_drop p ri pend pend' : RSP p ri pend -> incl pend' pend ->
+  (forall sid k b, In (sid, k, b) pend -> ~ In (sid, k, b) pend' -> In b (blocks_of p k) ->
+     exists m, In m (r_byip ri) /\ m_sub m = k /\ m_blk m = b) ->
+  RSP p ri pend'.
+Proof.
+  intros [S C] Hincl Hd. constructor; [exact S|].
+  intros k b Hb. destruct (C _ _ Hb) as [L|(sid & Hp)]; [left; exact L|].
+  destruct (in_dec (fun x y : N * N * block =>
+      ltac:(decide equality; [decide equality; apply N.eq_dec|decide equality; apply N.eq_dec]))
+      (sid, k, b) pend') as [Hin|Hnin].
+  - right. eauto.
+  - left. eapply Hd; eauto.
+Qed.
+Lemma rsp_grow p ri pend x : RSP p ri pend -> RSP p ri (pend ++ [x]).
+Proof.
+  intros [S C]. constructor; [exact S|]. intros k b Hb. destruct (C _ _ Hb) as [L|(sid & Hp)]; [auto|].
+  right. exists sid. apply in_or_app. auto.
+Qed.
+
+Lemma commit_p c st p p' ri pend k b : wf c -> Inv c st p' -> RI ri -> RSP p ri pend ->
+  (forall k' b', In b' (blocks_of p k') -> In b' (blocks_of p' k')) ->
+  (forall k' b', In b' (blocks_of p' k') -> In b' (blocks_of p k') \/ (k' = k /\ b' = b)) ->
+  In b (blocks_of p' k) ->
+  RI (rev_add repaired ri k b) /\ RSP p' (rev_add repaired ri k b) pend.
+Proof.
+  intros W I' R [S C] Hgrow Hnew Hb. destruct (rev_add_spec ri k b R) as [R' M]. split; [exact R'|].
+  constructor.
+  - intros m Hm. apply M in Hm. destruct Hm as [[Hm _]| ->]; [apply Hgrow; auto|exact Hb].
+  - intros k' b' Hb'.
+    assert (Hold : (b_ip b' <> b_ip b \/ b_start b' <> b_start b) ->
+              (exists m, In m (r_byip (rev_add repaired ri k b)) /\ m_sub m = k' /\ m_blk m = b') \/
+              (exists sid, In (sid, k', b') pend)).
+    { intros NK. destruct (Hnew _ _ Hb') as [Ho|[-> ->]]; [|destruct NK; congruence].
+      destruct (C _ _ Ho) as [(m & Hm & Ms & Mb)|P]; [|right; exact P].
+      left. exists m. split; [|auto]. apply M. left. split; [exact Hm|].
+      unfold rkey. rewrite Mb. intros K; inversion K; destruct NK; congruence. }
+    destruct (N.eq_dec (b_ip b') (b_ip b)) as [E1|E1]; [destruct (N.eq_dec (b_start b') (b_start b)) as [E2|E2]|]; auto.
+    assert (k' = k) by (eapply (i_excl _ _ _ I'); eauto). subst k'.
+    destruct (i_blk _ _ _ I' _ _ Hb') as (_ & _ & _ & _ & En' & _).
+    destruct (i_blk _ _ _ I' _ _ Hb) as (_ & _ & _ & _ & En & _).
+    assert (b' = b) by (apply block_eq; congruence). subst b'.
+    left. eexists. split; [apply M; right; reflexivity|]. split; reflexivity.
+Qed.
+
+Lemma rollback_p c st p p' ri pend mk : wf c -> Inv c st p' -> RI ri -> RSP p ri pend ->
+  (forall k b, In b (blocks_of p k) -> In b (blocks_of p' k)) ->
+  (forall k, k <> mk -> blocks_of p' k = blocks_of p k) ->
+  RI (fold_left (fun ri b => rev_remove ri (b_ip b) (b_start b)) (blocks_of p' mk) ri) /\
+  RSP (release c p' mk) (fold_left (fun ri b => rev_remove ri (b_ip b) (b_start b)) (blocks_of p' mk) ri) pend.
+Proof.
+  intros W I' R [S C] Hgrow Hother.
+  destruct (rev_remove_fold (blocks_of p' mk) ri R) as [R' M]. split; [exact R'|].
+  constructor.
+  - intros m Hm. apply M in Hm. destruct Hm as [Hm NK]. rewrite blocks_of_release.
+    destruct (N.eqb_spec (m_sub m) mk) as [E|E].
+    + exfalso. pose proof (S _ Hm) as Own. rewrite E in Own. apply (NK _ (Hgrow _ _ Own)). reflexivity.
+    + rewrite Hother by auto. auto.
+  - intros k' b' Hb'. rewrite blocks_of_release in Hb'. destruct (N.eqb_spec k' mk) as [E|NE]; [contradiction|].
+    pose proof Hb' as Hb2. rewrite Hother in Hb' by auto.
+    destruct (C _ _ Hb') as [(m & Hm & Ms & Mb)|P]; [|right; exact P].
+    left. exists m. split; [|auto]. apply M. split; [exact Hm|].
+    intros b0 Hb0 K. unfold rkey in K. rewrite Mb in K. inversion K. apply NE. eapply (i_excl _ _ _ I'); eauto.
+Qed.
+
+Section PendingSteps.
+  Variable c : cfg.
+  Variable st : list (N * N * bool * nat).
+  Variable f : N -> N.
+  Hypothesis W : wf c.
+  Hypothesis WS : wfst c st.
+
+  (* replace pool and index, keep the pending list *)
+  Lemma pinv_with s p' ri' : PInv c st f s -> Inv c st p' -> RI ri' -> RSP p' ri' (cp_pend s) ->
+    forall sess, PInv c st f {| cp_pool := p'; cp_rev := ri'; cp_sess := sess; cp_pend := cp_pend s |}.
+  Proof. intros (_ & _ & _ & ND & K) I R S sess. unfold PInv; cbn [cp_pool cp_rev cp_pend]. auto. Qed.
+
+  Lemma commit_after_add_p s p' k b sid addrs' : PInv c st f s -> Inv c st p' ->
+    p' = add_block (cp_pool s) k b addrs' -> PInv c st f (commit_mapping repaired s p' sid k b).
+  Proof.
+    intros PI I' E. pose proof PI as (I & R & S & _).
+    destruct (commit_p c st (cp_pool s) p' (cp_rev s) (cp_pend s) k b W I' R S) as [R' S'].
+    - intros k' b' H. subst p'. rewrite blocks_of_add. destruct (k' =? k) eqn:K; [apply N.eqb_eq in K; subst; apply in_or_app|]; auto.
+    - intros k' b' H. subst p'. rewrite blocks_of_add in H. destruct (N.eqb_spec k' k) as [->|]; [|auto].
+      apply in_app_or in H. destruct H as [H|[<-|[]]]; auto.
+    - subst p'. rewrite blocks_of_add, N.eqb_refl. apply in_or_app. simpl; auto.
+    - apply (pinv_with s p' _ PI I' R' S').
+  Qed.
+  Lemma commit_same_p s k b sid : PInv c st f s -> In b (blocks_of (cp_pool s) k) ->
+    PInv c st f (commit_mapping repaired s (cp_pool s) sid k b).
+  Proof.
+    intros PI Hb. pose proof PI as (I & R & S & _).
+    destruct (commit_p c st (cp_pool s) (cp_pool s) (cp_rev s) (cp_pend s) k b W I R S) as [R' S']; auto.
+    apply (pinv_with s _ _ PI I R' S').
+  Qed.
+  Lemma restore_commit_p s sid mk mb p' : PInv c st f s ->
+    restore_repaired c (cp_pool s) mk mb true = Some p' -> PInv c st f (commit_mapping repaired s p' sid mk mb).
+  Proof.
+    intros PI H. pose proof PI as (I & R & S & _).
+    pose proof (restore_repaired_inv _ _ _ _ _ _ _ W WS I H) as I'.
+    destruct (restore_repaired_shape _ _ _ _ _ _ W I H) as [[-> Hb]|(addrs' & E)].
+    - apply commit_same_p; auto.
+    - eapply commit_after_add_p; eauto.
+  Qed.
+
+  Lemma pba_p s sid k dp obs : PInv c st f s -> PInv c st f (fst (pba_activate repaired c s sid k dp obs)).
+  Proof.
+    intros PI. pose proof PI as (I & R & S & ND & K). unfold pba_activate. cbn [step].
+    destruct (blocks_of (cp_pool s) k) as [|b0 r0] eqn:B.
+    - destruct (do_alloc c (cp_pool s) k obs) as [p' o] eqn:D.
+      pose proof (do_alloc_inv c st (cp_pool s) k obs W WS I) as I'. rewrite D in I'. cbn [fst] in I'.
+      destruct (do_alloc_shape _ _ _ _ _ _ D) as [(b & addrs' & -> & E)|[-> Hno]].
+      + destruct dp; cbn [fst].
+        * eapply commit_after_add_p; eauto.
+        * unfold with_pool. apply (pinv_with s _ _ PI); [apply release_inv; auto|exact R|].
+          eapply rsp_ext; [|exact S]. intros k'. rewrite blocks_of_release. subst p'. rewrite blocks_of_add.
+          destruct (N.eqb_spec k' k) as [->|]; [rewrite B|]; reflexivity.
+      + destruct o as [nw b| | | |]; try (cbn [fst]; destruct s; exact PI).
+        exfalso. eapply Hno; reflexivity.
+    - cbn [fst]. apply commit_same_p; auto. rewrite B. simpl; auto.
+  Qed.
+
+  Lemma filter_sid_facts (pend : list (N * N * block)) sid :
+    let pend' := filter (fun e => negb (pend_sid e =? sid)) pend in
+    incl pend' pend /\ (NoDup (map pend_sid pend) -> NoDup (map pend_sid pend')) /\
+    (forall x, In x pend -> ~ In x pend' -> pend_sid x = sid).
+  Proof.
+    intros pend'. split; [|split].
+    - intros x Hx. apply filter_In in Hx. tauto.
+    - apply nodup_map_filter.
+    - intros x Hx Hn. destruct (N.eqb_spec (pend_sid x) sid) as [E|E]; [exact E|].
+      exfalso. apply Hn. apply filter_In. split; [exact Hx|]. apply negb_true_iff, N.eqb_neq. exact E.
+  Qed.
+
+  (* shrink the pending list of a state *)
+  Lemma pinv_shrink p ri sess pend sid : Inv c st p -> RI ri -> RSP p ri pend ->
+    NoDup (map pend_sid pend) -> (forall e, In e pend -> snd (fst e) = f (pend_sid e)) ->
+    (forall k b, In (sid, k, b) pend -> In b (blocks_of p k) ->
+       exists m, In m (r_byip ri) /\ m_sub m = k /\ m_blk m = b) ->
+    PInv c st f {| cp_pool := p; cp_rev := ri; cp_sess := sess;
+                   cp_pend := filter (fun e => negb (pend_sid e =? sid)) pend |}.
+  Proof.
+    intros I R S ND K Hd. destruct (filter_sid_facts pend sid) as (Hi & Hn & Hx).
+    unfold PInv; cbn [cp_pool cp_rev cp_pend]. split; [exact I|]. split; [exact R|]. split; [|split].
+    - eapply rsp_drop; eauto. intros sid' k b Hp Hnp Hb.
+      pose proof (Hx _ Hp Hnp) as E. unfold pend_sid in E; simpl in E. subst sid'. eauto.
+    - auto.
+    - intros e He. apply K. apply Hi. exact He.
+  Qed.
+
+  Lemma existsb_block_false b l : existsb (block_eqb b) l = false -> ~ In b l.
+  Proof.
+    intros H Hin. assert (existsb (block_eqb b) l = true); [|congruence].
+    apply existsb_exists. exists b. split; [exact Hin|]. unfold block_eqb. rewrite !N.eqb_refl. reflexivity.
+  Qed.
+
+  Lemma cstep_p s o : keyed f o = true -> PInv c st f s -> PInv c st f (fst (cstep repaired c s o)).
+  Proof.
+    intros KY PI. pose proof PI as (I & R & S & ND & K).
+    destruct o as [sid k dp obs|sid k obs|sid ok|sid k mk mb dp obs|sid k dl|sid mk mb bulk obs|mk mb|];
+      cbn [cstep]; rewrite ?pk_repaired.
+    - destruct (busy s sid); [exact PI|]. apply pba_p; auto.
+    - (* activation whose add stays in flight *)
+      destruct (busy s sid) eqn:BZ; [exact PI|]. cbn [step].
+      simpl in KY. apply N.eqb_eq in KY.
+      destruct (blocks_of (cp_pool s) k) as [|b0 r0] eqn:B.
+      + destruct (do_alloc c (cp_pool s) k obs) as [p' o] eqn:D.
+        pose proof (do_alloc_inv c st (cp_pool s) k obs W WS I) as I'. rewrite D in I'. cbn [fst] in I'.
+        destruct (do_alloc_shape _ _ _ _ _ _ D) as [(b & addrs' & -> & E)|[-> Hno]].
+        * cbn [fst]. unfold PInv; cbn [cp_pool cp_rev cp_pend]. split; [exact I'|]. split; [exact R|]. split; [|split].
+          -- destruct S as [Ss Sc]. constructor.
+             ++ intros m Hm. subst p'. rewrite blocks_of_add. specialize (Ss _ Hm).
+                destruct (m_sub m =? k) eqn:Q; [apply N.eqb_eq in Q; rewrite Q in *; apply in_or_app|]; auto.
+             ++ intros k' b' Hb'. subst p'. rewrite blocks_of_add in Hb'.
+                destruct (N.eqb_spec k' k) as [->|NE].
+                ** apply in_app_or in Hb'. destruct Hb' as [Ho|[<-|[]]].
+                   --- destruct (Sc _ _ Ho) as [L|(sd & Hp)]; [left; exact L|right; exists sd; apply in_or_app; auto].
+                   --- right. exists sid. apply in_or_app. right. simpl; auto.
+                ** destruct (Sc _ _ Hb') as [L|(sd & Hp)]; [left; exact L|right; exists sd; apply in_or_app; auto].
+          -- rewrite map_app. simpl. apply NoDup_app_single. split; [exact ND|].
+             intros Hin. apply in_map_iff in Hin. destruct Hin as (x & Ex & Hx).
+             unfold busy in BZ. apply orb_false_iff in BZ. destruct BZ as [_ BZ].
+             assert (existsb (fun e => pend_sid e =? sid) (cp_pend s) = true); [|congruence].
+             apply existsb_exists. exists x. split; [exact Hx|]. apply N.eqb_eq. exact Ex.
+          -- intros e He. apply in_app_or in He. destruct He as [He|[<-|[]]]; [auto|]. simpl. exact KY.
+        * destruct o as [nw b| | | |]; try (cbn [fst]; destruct s; exact PI).
+          exfalso. eapply Hno; reflexivity.
+      + cbn [fst]. apply commit_same_p; auto. rewrite B. simpl; auto.
+    - (* the in-flight add completes *)
+      destruct (find (fun e => pend_sid e =? sid) (cp_pend s)) as [e|] eqn:F; [|exact PI].
+      apply find_some in F. destruct F as [He Hs]. apply N.eqb_eq in Hs.
+      destruct e as [[sid0 k0] b0]. unfold pend_sid in Hs; simpl in Hs. subst sid0. cbn [fst snd].
+      assert (UNI : forall k b, In (sid, k, b) (cp_pend s) -> k = k0 /\ b = b0).
+      { intros k b Hin. assert (E : (sid, k, b) = (sid, k0, b0)) by (eapply (nodup_map_inj pend_sid); eauto).
+        inversion E; auto. }
+      destruct ok.
+      + cbn [repaired v_late andb].
+        destruct (existsb (block_eqb b0) (blocks_of (cp_pool s) k0)) eqn:HB; cbn [negb fst].
+        * (* still held: commit, then forget the pending entry *)
+          apply existsb_exists in HB. destruct HB as (x & Hx & Ex).
+          assert (x = b0). { unfold block_eqb in Ex. rewrite !andb_true_iff, !N.eqb_eq in Ex. destruct Ex as ((E1 & E2) & E3).
+                            symmetry. apply block_eq; auto. } subst x.
+          destruct (commit_p c st (cp_pool s) (cp_pool s) (cp_rev s) (cp_pend s) k0 b0 W I R S) as [R' S']; auto.
+          unfold commit_mapping; cbn [cp_pool cp_rev cp_sess cp_pend].
+          apply pinv_shrink; auto.
+          intros k b Hin _. destruct (UNI _ _ Hin) as [-> ->].
+          destruct (rev_add_spec (cp_rev s) k0 b0 R) as [_ M]. eexists. split; [apply M; right; reflexivity|]. auto.
+        * apply pinv_shrink; auto. intros k b Hin Hb. destruct (UNI _ _ Hin) as [-> ->].
+          exfalso. eapply existsb_block_false; eauto.
+      + cbn [repaired v_late fst with_pool cp_pool cp_rev cp_sess cp_pend].
+        destruct (rollback_p c st (cp_pool s) (cp_pool s) (cp_rev s) (cp_pend s) k0 W I R S) as [R' S']; auto.
+        apply pinv_shrink; auto; [apply release_inv; auto|].
+        intros k b Hin Hb. destruct (UNI _ _ Hin) as [-> ->]. rewrite blocks_of_release, N.eqb_refl in Hb. contradiction.
+    - destruct (busy s sid); [exact PI|].
+      unfold restore; cbn [repaired v_validate v_rollback].
+      destruct (restore_repaired c (cp_pool s) mk mb true) as [p'|] eqn:H; [|apply pba_p; auto].
+      destruct dp; cbn [fst]; [eapply restore_commit_p; eauto|].
+      pose proof (restore_repaired_inv _ _ _ _ _ _ _ W WS I H) as I'.
+      destruct (rollback_p c st (cp_pool s) p' (cp_rev s) (cp_pend s) mk W I' R S) as [R' S'].
+      + destruct (restore_repaired_shape _ _ _ _ _ _ W I H) as [[-> Hb]|(addrs' & ->)]; [auto|].
+        intros k0 b0 H0. rewrite blocks_of_add. destruct (N.eqb_spec k0 mk) as [->|]; [apply in_or_app|]; auto.
+      + destruct (restore_repaired_shape _ _ _ _ _ _ W I H) as [[-> Hb]|(addrs' & ->)]; [auto|].
+        intros k0 NE. rewrite blocks_of_add. destruct (N.eqb_spec k0 mk); [contradiction|reflexivity].
+      + apply (pinv_with s _ _ PI); auto. apply release_inv; auto.
+    - (* release; cancels an activation in flight *)
+      simpl in KY. apply N.eqb_eq in KY. cbn [repaired v_late andb].
+      destruct (negb (existsb (N.eqb sid) (cp_sess s)) && negb (existsb (fun e => pend_sid e =? sid) (cp_pend s))); [exact PI|].
+      assert (KEY : forall k1 b1, In (sid, k1, b1) (cp_pend s) -> k1 = k).
+      { intros k1 b1 Hin. specialize (K _ Hin). unfold pend_sid in K; simpl in K. congruence. }
+      destruct (blocks_of (cp_pool s) k) as [|b0 r0] eqn:B; cbn [fst].
+      + apply pinv_shrink; auto. intros k1 b1 Hin Hb. rewrite (KEY _ _ Hin), B in Hb. contradiction.
+      + rewrite <- B.
+        destruct (rollback_p c st (cp_pool s) (cp_pool s) (cp_rev s) (cp_pend s) k W I R S) as [R' S']; auto.
+        apply pinv_shrink; auto; [apply release_inv; auto|].
+        intros k1 b1 Hin Hb. rewrite (KEY _ _ Hin), blocks_of_release, N.eqb_refl in Hb. contradiction.
+    - destruct (negb (bulk =? 0)).
+      { destruct (busy s sid); [exact PI|]. apply pba_p; auto. }
+      unfold restore; cbn [repaired v_validate].
+      destruct (restore_repaired c (cp_pool s) mk mb true) as [p'|] eqn:H; cbn [fst]; [|exact PI].
+      eapply restore_commit_p; eauto.
+    - unfold restore; cbn [repaired v_validate].
+      destruct (restore_repaired c (cp_pool s) mk mb true) as [p'|] eqn:H; cbn [fst]; [|exact PI].
+      exact (restore_commit_p s 0 mk mb p' PI H).
+    - exact PI.
+  Qed.
+
+  Lemma crun_p ops : forallb (keyed f) ops = true -> forall s, PInv c st f s -> PInv c st f (crun repaired c s ops).
+  Proof.
+    unfold crun. induction ops as [|o ops IH]; intros KY s PI; simpl; [exact PI|].
+    simpl in KY. apply andb_true_iff in KY. destruct KY as [K1 K2]. apply IH; auto. apply cstep_p; auto.
+  Qed.
+End PendingSteps.
+
+Lemma comp_init_p c st f p0 : Inv c st p0 -> (forall k, blocks_of p0 k = []) -> PInv c st f (comp_init p0).
+Proof.
+  intros I E. destruct (comp_init_inv c st p0 I E) as (_ & R & _).
+  unfold PInv, comp_init; cbn [cp_pool cp_rev cp_pend]. split; [exact I|]. split; [exact R|]. split; [|split].
+  - constructor; [simpl; intros m []|]. intros k b H. rewrite E in H. contradiction.
+  - constructor.
+  - intros e [].
+Qed.
+
+(* every completion order: the answer of Lookup is always an owner; a covered port without an answer belongs to a block
+   whose dataplane add is still in flight *)
+Lemma reverse_lookup_exact_all r p0 f ops ip port :
+  wf_range r -> configure repaired r = Some p0 -> forallb (keyed f) ops = true ->
+  let s := crun repaired (effective r) (comp_init p0) ops in
+  match rev_lookup (cp_rev s) ip port with
+  | Some m => In (m_blk m) (blocks_of (cp_pool s) (m_sub m)) /\ covers (m_blk m) ip port = true /\
+              forall k b, In b (blocks_of (cp_pool s) k) -> covers b ip port = true -> k = m_sub m /\ b = m_blk m
+  | None => forall k b, In b (blocks_of (cp_pool s) k) -> covers b ip port = true ->
+                        exists sid, In (sid, k, b) (cp_pend s)
+  end.
+Proof.
+  intros Hr Hc KY s. destruct (configure_inv r p0 Hr Hc) as (W & WS & I0).
+  assert (PI : PInv (effective r) (map static (p_addrs p0)) f s).
+  { apply crun_p; auto. apply comp_init_p; auto. eapply configure_empty; eauto. }
+  destruct PI as (I & R & [S C] & _). unfold rev_lookup.
+  destruct (find _ (r_byip (cp_rev s))) as [m|] eqn:F.
+  - apply find_some in F. destruct F as [Hm Cm]. pose proof (S _ Hm) as Own. split; [exact Own|]. split; [exact Cm|].
+    intros k b Hb Cb. apply covers_spec in Cm. apply covers_spec in Cb.
+    destruct (i_blk _ _ _ I _ _ Hb) as (_ & _ & _ & S1 & E1 & _).
+    destruct (i_blk _ _ _ I _ _ Own) as (_ & _ & _ & S2 & E2 & _).
+    assert (ES : b_start b = b_start (m_blk m)).
+    { destruct (N.eq_dec (b_start b) (b_start (m_blk m))) as [E|NE]; [exact E|].
+      destruct (start_ok_disjoint (effective r) _ _ W S1 S2 NE); lia. }
+    assert (EI : b_ip b = b_ip (m_blk m)) by (destruct Cm, Cb; congruence).
+    split; [eapply (i_excl _ _ _ I); eauto|]. apply block_eq; congruence.
+  - intros k b Hb Cb. destruct (C _ _ Hb) as [(m & Hm & _ & Mb)|P]; [|exact P].
+    exfalso. pose proof (find_none _ _ F _ Hm) as N. simpl in N. congruence.
+Qed.
+
+(* with no add in flight the lookup is exact in both directions *)
+Lemma reverse_lookup_exact_quiescent r p0 f ops ip port :
+  wf_range r -> configure repaired r = Some p0 -> forallb (keyed f) ops = true ->
+  let s := crun repaired (effective r) (comp_init p0) ops in
+  cp_pend s = [] -> rev_lookup (cp_rev s) ip port = None ->
+  forall k b, In b (blocks_of (cp_pool s) k) -> covers b ip port = false.
+Proof.
+  intros Hr Hc KY s HP HL k b Hb. pose proof (reverse_lookup_exact_all r p0 f ops ip port Hr Hc KY) as E.
+  cbv zeta in E. fold s in E. rewrite HL in E. destruct (covers b ip port) eqn:Cb; [|reflexivity].
+  destruct (E _ _ Hb Cb) as (sid & Hin). rewrite HP in Hin. contradiction.
 Qed.
